@@ -123,7 +123,8 @@ theorem bad_value_becomes_null (c : LasContent) (l : LasLayout) (hwf : wfContent
     ∃ f a, parse (print c l) = .ok f ∧ f.array = some a ∧ a.null = declaredNull c ∧
       a.frames = c.frames.map (fun row => row.map (fun d => match d with
         | .num m e => Cell.num m e
-        | .bad _ => Cell.null)) := by
+        | .bad _ => Cell.null
+        | .lit _ m e => Cell.num m e)) := by
   refine ⟨toFile c, _, parse_print c l hwf, rfl, rfl, ?_⟩
   apply List.map_congr_left; intro row _
   apply List.map_congr_left; intro d _
@@ -138,7 +139,8 @@ theorem mask_exact (c : LasContent) (l : LasLayout) (hwf : wfContent c = true) :
     ∃ f a, parse (print c l) = .ok f ∧ f.array = some a ∧
       maskOf a = c.frames.map (fun row => row.zipIdx.map (fun p => p.2 != 0 && (match p.1 with
         | .num m e => numEq (m, e) (declaredNull c)
-        | .bad _ => true))) := by
+        | .bad _ => true
+        | .lit _ m e => numEq (m, e) (declaredNull c)))) := by
   refine ⟨toFile c, _, parse_print c l hwf, rfl, ?_⟩
   simp only [maskOf, List.map_map]
   apply List.map_congr_left; intro row _
@@ -147,6 +149,7 @@ theorem mask_exact (c : LasContent) (l : LasLayout) (hwf : wfContent c = true) :
   cases hp : p.1 with
   | num m e => simp [Function.comp, hp, expectCell, cellKey]
   | bad s => simp [Function.comp, hp, expectCell, cellKey, numEq_self]
+  | lit s m e => simp [Function.comp, hp, expectCell, cellKey]
 
 /-- `_convert_value`: a token outside the numeric grammar becomes null, a printed number is read back exactly -/
 theorem convert_value_spec (tok : Str) :
